@@ -74,7 +74,7 @@ def run_families(ctx, bdir, families, episodes, seed, tracedir=None, replay=None
     if os.path.exists(out):
         os.remove(out)
     env = dict(os.environ, VERIF_OUT=out, VERIF_SEED=str(seed), VERIF_EPISODES=str(episodes),
-               VERIF_SITES=os.path.join(bdir, 'sites.json'), VERIF_FAMILIES=','.join(families))
+               VERIF_SITES=os.path.join(bdir, 'sites.json'), VERIF_FAMILIES=','.join(families), VERIF_PROP=ctx.pid)
     if tracedir:
         os.makedirs(tracedir, exist_ok=True)
         env['VERIF_TRACEDIR'] = tracedir
